@@ -7,6 +7,8 @@ family kinds — by induction, no sampling.
 -/
 import MetricsVerif.Proofs.PromFmt
 import MetricsVerif.Proofs.PromWhole
+import MetricsVerif.Proofs.DistExpose
+import MetricsVerif.Model.PromNum
 import MetricsVerif.Generated.SourceFacts
 
 namespace MetricsVerif.C08
@@ -831,6 +833,328 @@ theorem familyName_injective_partial (a b : List Char) (u : Option MUnit)
 
 theorem familyName_none (n : List Char) : familyName n none = n := by
   simp [familyName, fullName, unitSuffix]
+
+/-! ## 8b. clauses D and E for the WHOLE render of ANY history: `TyMatches` is discharged from the recorder's invariant
+
+`family_shape` asks for `TyMatches ty s` (the type word fits what the series carry).  For counter and gauge families it
+holds by construction of `groupFamilies`; for distribution families it is the invariant `DistBuilder.KindInv` of `Prom.step`
+(every stored distribution has the kind `get_distribution` gives for its family's plain name) composed with
+`distType_newDist` (`get_distribution_type` and `get_distribution` decide alike, for every configuration: any number of
+overrides, global buckets or not). -/
+
+/-- `get_distribution_type(name)` announces `histogram` exactly when `get_distribution(name)` builds a histogram — for
+    every configuration (global buckets, any list of overrides in any order) and every name -/
+theorem distType_newDist (cfg : Prom.Cfg) (name : List Char) :
+    Prom.distType cfg name
+      = if DistBuilder.isHist (Prom.newDist cfg name) then "histogram".toList else "summary".toList := by
+  unfold Prom.distType Prom.newDist
+  cases hf : cfg.overrides.find? (fun mb => mb.1.matches name) with
+  | some x =>
+    have hx := List.find?_some hf
+    have hany : cfg.overrides.any (fun mb => mb.1.matches name) = true := by
+      rw [List.any_eq_true]
+      exact ⟨x, List.mem_of_find?_eq_some hf, hx⟩
+    obtain ⟨m, bs⟩ := x
+    simp only [DistBuilder.isHist, hany, if_true]
+    split <;> rfl
+  | none =>
+    have hany : cfg.overrides.any (fun mb => mb.1.matches name) = false := by
+      rw [List.find?_eq_none] at hf
+      rw [List.any_eq_false]
+      intro x hx
+      simpa using hf x hx
+    cases hb : cfg.buckets with
+    | none => simp only [DistBuilder.isHist, hany, Option.isSome_none]; rfl
+    | some b => simp only [DistBuilder.isHist, Option.isSome_some, if_true]
+
+/-- what `distSeries` renders fits the type word of its kind -/
+theorem distSeries_tyMatches (qs : List (List Char)) (labels : List (List Char)) (d : Prom.Dist) :
+    TyMatches (if DistBuilder.isHist d then "histogram".toList else "summary".toList) (Prom.distSeries qs labels d) := by
+  cases d <;> simp [Prom.distSeries, TyMatches, DistBuilder.isHist]
+
+/-- families grouped from scalar entries carry scalar series only -/
+theorem groupFamilies_scalar (entries : List (Prom.MKey × List Char)) (globals : List (List Char × List Char)) :
+    ∀ f ∈ Prom.groupFamilies entries globals, ∀ s ∈ f.2, ∃ v, s.data = .scalar v := by
+  unfold Prom.groupFamilies
+  refine foldl_inv (fun fams : List (List Char × List Series) => ∀ f ∈ fams, ∀ s ∈ f.2, ∃ v, s.data = .scalar v)
+    (fun _ => True) _ entries ?_ [] (by intro f hf; cases hf) (fun _ _ => trivial)
+  intro fams kv hf _
+  rcases hkp : keyToParts kv.1.name kv.1.labels globals with ⟨name, labels⟩
+  simp only []
+  intro f hfm
+  refine upsert_inv (fun (_ : List Char) (ss : List Series) => ∀ s ∈ ss, ∃ v, s.data = .scalar v) fams name []
+    _ hf ?_ ?_ f hfm
+  · intro s hs
+    simp only [List.nil_append, List.mem_singleton] at hs
+    subst hs
+    exact ⟨_, rfl⟩
+  · intro ss hss s hs
+    simp only [List.mem_append, List.mem_singleton] at hs
+    rcases hs with h | rfl
+    · exact hss s h
+    · exact ⟨_, rfl⟩
+
+/-- one rendered family as the property describes it: at most one HELP line, exactly one TYPE line with an exposition
+    type word, then only samples the type allows under the announced family name, then the blank line -/
+def FamilyShaped (fam : List Line) : Prop :=
+  ∃ name ty pre samples, fam = pre ++ [Line.type name ty] ++ samples ++ [Line.blank]
+    ∧ (pre = [] ∨ ∃ d, pre = [Line.help name d]) ∧ isType ty = true ∧ ∀ l ∈ samples, AllowedSample ty name l
+
+theorem renderFamily_shaped (on : Bool) (name : List Char) (desc : Option (List Char × Option MUnit))
+    (ty : List Char) (series : List Series) (ht : isType ty = true) (h : ∀ s ∈ series, TyMatches ty s) :
+    FamilyShaped (renderFamily on name desc ty series) := by
+  obtain ⟨fam, pre, samples, e, hp, hs, _⟩ := family_shape on name desc ty series h
+  exact ⟨fam, ty, pre, samples, e, hp, ht, hs⟩
+
+/-- **whole render, one state**: in a state whose distributions have the kind their family name asks for, every family
+    `render` writes is `FamilyShaped` — no hypothesis on the type words is left -/
+theorem renderLines_shaped (s : Prom.St) (h : DistBuilder.KindInv s.cfg s.dists) :
+    ∀ fam ∈ (Prom.renderLines s).2, FamilyShaped fam := by
+  have hk := DistBuilder.drain_kind s h
+  intro fam hfam
+  simp only [Prom.renderLines, List.mem_append, List.mem_map] at hfam
+  rcases hfam with (⟨f, hf, rfl⟩ | ⟨f, hf, rfl⟩) | ⟨f, hf, rfl⟩
+  · refine renderFamily_shaped _ _ _ _ _ (by decide) ?_
+    intro sr hsr
+    obtain ⟨v, hv⟩ := groupFamilies_scalar _ _ f hf sr hsr
+    unfold TyMatches; rw [hv]
+    exact Or.inl rfl
+  · refine renderFamily_shaped _ _ _ _ _ (by decide) ?_
+    intro sr hsr
+    obtain ⟨v, hv⟩ := groupFamilies_scalar _ _ f hf sr hsr
+    unfold TyMatches; rw [hv]
+    exact Or.inr rfl
+  · refine renderFamily_shaped _ _ _ _ _ (isType_distType _ _) ?_
+    intro sr hsr
+    simp only [List.mem_map] at hsr
+    obtain ⟨ld, hld, rfl⟩ := hsr
+    have hkind := hk f hf ld hld
+    rw [Prom.drain_cfg] at hkind
+    show TyMatches (Prom.distType s.cfg f.1) (Prom.distSeries s.cfg.quantiles ld.1 ld.2)
+    rw [distType_newDist, ← hkind]
+    exact distSeries_tyMatches _ _ _
+
+/-- **clauses D and E, any history** ("each family has exactly one TYPE line which precedes its samples, every sample
+    name is the family name or the family name plus a suffix its type allows"): for EVERY configuration (unit suffix on or
+    off, any global labels, global buckets or none, ANY list of bucket overrides, any quantiles) and EVERY history of
+    describe / update / upkeep operations on ANY keys (no precondition at all), every family of every render is: optional
+    HELP, one TYPE, samples allowed by that TYPE under that name, blank.  The hypothesis `TyMatches` of `family_shape` is
+    discharged here. -/
+theorem render_families_shaped (cfg : Prom.Cfg) (ops : List Prom.Op) :
+    ∀ fam ∈ (Prom.renderLines (ops.foldl Prom.step { cfg := cfg })).2, FamilyShaped fam := by
+  have h0 : DistBuilder.KindInv ({ cfg := cfg } : Prom.St).cfg ({ cfg := cfg } : Prom.St).dists := by
+    intro f hf; cases hf
+  exact renderLines_shaped _ (DistBuilder.run_kind ops _ h0)
+
+/-! ### the same as a sequential reader over the whole list of lines
+
+`FamilyShaped` speaks about each family on its own.  The reader below goes over the flattened output line by line, the way
+a scraper does, with the state "what has been announced since the last blank line"; it accepts iff every block is
+`HELP? TYPE sample* blank`, the HELP names the TYPE's family, and every sample is allowed by the TYPE line that precedes it
+in its block.  It is independent of `renderFamily` (it never looks at how the lines were produced). -/
+
+/-- Boolean form of `AllowedSample` -/
+def allowedB (ty fam : List Char) : Line → Bool
+  | .sample n sfx _ e _ =>
+    n == fam &&
+    ( ((ty == "counter".toList || ty == "gauge".toList) && sfx == none && e == none)
+    || (ty == "histogram".toList &&
+        ((sfx == some "bucket".toList && (match e with | some (k, _) => k == "le".toList | none => false))
+         || (sfx == some "sum".toList && e == none) || (sfx == some "count".toList && e == none)))
+    || (ty == "summary".toList &&
+        ((sfx == none && (match e with | some (k, _) => k == "quantile".toList | none => false))
+         || (sfx == some "sum".toList && e == none) || (sfx == some "count".toList && e == none))))
+  | _ => false
+
+theorem allowedB_of_allowed (ty fam : List Char) (l : Line) (h : AllowedSample ty fam l) : allowedB ty fam l = true := by
+  cases l with
+  | help _ _ => exact absurd h (by simp [AllowedSample])
+  | type _ _ => exact absurd h (by simp [AllowedSample])
+  | blank => exact absurd h (by simp [AllowedSample])
+  | sample n sfx ls e v =>
+    obtain ⟨rfl, hcase⟩ := h
+    rcases hcase with ⟨hty, rfl, rfl⟩ | ⟨rfl, hh⟩ | ⟨rfl, hh⟩
+    · rcases hty with rfl | rfl <;> simp [allowedB]
+    · rcases hh with ⟨rfl, le, rfl⟩ | ⟨rfl, rfl⟩ | ⟨rfl, rfl⟩ <;> simp [allowedB]
+    · rcases hh with ⟨rfl, q, rfl⟩ | ⟨rfl, rfl⟩ | ⟨rfl, rfl⟩ <;> simp [allowedB]
+
+/-- reader state: between families / after a HELP line / after the TYPE line of the current family -/
+inductive ScanSt
+  | start
+  | helped (name : List Char)
+  | typed (name ty : List Char)
+
+/-- the sequential reader: `true` iff the lines are a sequence of blocks `HELP? TYPE sample* blank` in which the HELP names
+    the family of the TYPE line and every sample is allowed by the (single) TYPE line before it in its block -/
+def scan : ScanSt → List Line → Bool
+  | .start, [] => true
+  | _, [] => false
+  | .start, .help n _ :: rest => scan (.helped n) rest
+  | .start, .type n t :: rest => isType t && scan (.typed n t) rest
+  | .helped n, .type n' t :: rest => n' == n && isType t && scan (.typed n' t) rest
+  | .typed _ _, .blank :: rest => scan .start rest
+  | .typed n t, l :: rest => allowedB t n l && scan (.typed n t) rest
+  | _, _ :: _ => false
+
+theorem scan_samples (n t : List Char) (samples rest : List Line) (h : ∀ l ∈ samples, AllowedSample t n l) :
+    scan (.typed n t) (samples ++ Line.blank :: rest) = scan .start rest := by
+  induction samples with
+  | nil => simp [scan]
+  | cons l more ih =>
+    have hl := h l (by simp)
+    have hb := allowedB_of_allowed t n l hl
+    have ih' := ih (fun x hx => h x (by simp [hx]))
+    cases l with
+    | help _ _ => exact absurd hl (by simp [AllowedSample])
+    | type _ _ => exact absurd hl (by simp [AllowedSample])
+    | blank => exact absurd hl (by simp [AllowedSample])
+    | sample a b c d e => simp only [List.cons_append, scan, hb, Bool.true_and]; exact ih'
+
+theorem scan_family (fam : List Line) (h : FamilyShaped fam) (rest : List Line) :
+    scan .start (fam ++ rest) = scan .start rest := by
+  obtain ⟨name, ty, pre, samples, rfl, hp, ht, hs⟩ := h
+  have hsm := scan_samples name ty samples rest hs
+  rcases hp with rfl | ⟨d, rfl⟩
+  · simp only [List.nil_append, List.append_assoc, List.cons_append, scan, ht, Bool.true_and]
+    exact hsm
+  · simp only [List.nil_append, List.append_assoc, List.cons_append, scan, ht, Bool.true_and, beq_self_eq_true]
+    exact hsm
+
+theorem scan_families (fams : List (List Line)) (h : ∀ fam ∈ fams, FamilyShaped fam) :
+    scan .start fams.flatten = true := by
+  induction fams with
+  | nil => rfl
+  | cons f more ih =>
+    rw [List.flatten_cons, scan_family f (h f (by simp))]
+    exact ih (fun x hx => h x (by simp [hx]))
+
+/-- **the whole output, read line by line, any history**: the sequential reader accepts the flattened output of every
+    render of every history under every configuration — every sample line is preceded, inside its own block, by exactly one
+    TYPE line, of a type that allows that sample under that family name (clauses D and E over the whole text, not per
+    `renderFamily` call) -/
+theorem render_scan_ok (cfg : Prom.Cfg) (ops : List Prom.Op) :
+    scan .start (Prom.renderLines (ops.foldl Prom.step { cfg := cfg })).2.flatten = true :=
+  scan_families _ (render_families_shaped cfg ops)
+
+/-- the reader is not vacuous: a sample under the wrong family name, a histogram sample under `summary`, a second TYPE line
+    in a block and a sample before its TYPE line are all rejected -/
+theorem scan_rejects :
+    scan .start [.type "a".toList "counter".toList, .sample "b".toList none [] none "1".toList, .blank] = false
+    ∧ scan .start [.type "a".toList "summary".toList,
+        .sample "a".toList (some "bucket".toList) [] (some ("le".toList, "1".toList)) "1".toList, .blank] = false
+    ∧ scan .start [.type "a".toList "counter".toList, .type "a".toList "counter".toList, .blank] = false
+    ∧ scan .start [.sample "a".toList none [] none "1".toList, .type "a".toList "counter".toList, .blank] = false
+    ∧ scan .start [.type "a".toList "counter".toList, .sample "a".toList none [] none "1".toList] = false := by
+  decide
+
+/-! ## 8c. number texts: the `le` label value as TEXT
+
+`render_lines_ok` is about the recorder model's number tokens.  For the values the generator uses as bucket bounds (and
+`_sum` / gauge values) — exact `n / 1024` — `PromNum.dyText` is the text `Display for f64` writes (compared text against
+text with the real `format!("{}", …)` by the stream `c08 letext`, and against every `le` / dyadic value of whole renders by the
+harness oracle `number_text_oracle`).  It is a plain decimal `-?[0-9]+(\.[0-9]+)?`, for every `n`; hence an accepted `le`
+label and a value token, so that `seriesLines_ok` / `renderFamily_ok` hold with the REAL texts in place of the model's. -/
+
+theorem natRepr_digit (n : Nat) : ∀ c ∈ (toString n).toList, c.isDigit = true := by
+  intro c hc
+  rw [Nat.toString_eq_repr, Nat.toList_repr] at hc
+  exact Nat.isDigit_of_mem_toDigits (by decide) (by decide) hc
+
+theorem natRepr_ne (n : Nat) : (toString n).toList ≠ [] := by
+  rw [Nat.toString_eq_repr, Nat.toList_repr]
+  exact Nat.toDigits_ne_nil
+
+theorem fracDigits_digit (fuel : Nat) : ∀ r, ∀ c ∈ PromNum.fracDigits fuel r, c.isDigit = true := by
+  induction fuel with
+  | zero => intro r c hc; simp [PromNum.fracDigits] at hc
+  | succ k ih =>
+    intro r c hc
+    simp only [PromNum.fracDigits] at hc
+    split at hc
+    · simp at hc
+    · rcases List.mem_append.mp hc with h | h
+      · exact natRepr_digit _ c h
+      · exact ih _ c h
+
+theorem fracDigits_ne (k r : Nat) (hr : r ≠ 0) : PromNum.fracDigits (k + 1) r ≠ [] := by
+  simp only [PromNum.fracDigits, hr, if_false]
+  intro h
+  exact natRepr_ne _ (List.append_eq_nil_iff.mp h).1
+
+/-- **plain decimal, every n**: the text of `n / 1024` is an optional `-`, at least one digit, and — only when the value is
+    not an integer — a `.` followed by at least one digit.  No exponent, no blank, no `+`, nothing else. -/
+theorem dyText_shape (n : Int) : ∃ ip fp : List Char,
+    ip ≠ [] ∧ (∀ c ∈ ip, c.isDigit = true) ∧ (∀ c ∈ fp, c.isDigit = true)
+    ∧ (fp = [] ↔ n.natAbs % 1024 = 0)
+    ∧ PromNum.dyText n = (if n < 0 then ['-'] else []) ++ ip ++ (if fp = [] then [] else '.' :: fp) := by
+  by_cases hz : n.natAbs % 1024 = 0
+  · refine ⟨(toString (n.natAbs / 1024)).toList, [], natRepr_ne _, natRepr_digit _, (by intro c hc; cases hc),
+      ⟨fun _ => hz, fun _ => rfl⟩, ?_⟩
+    simp [PromNum.dyText, hz]
+  · have hne := fracDigits_ne 9 (n.natAbs % 1024) hz
+    refine ⟨(toString (n.natAbs / 1024)).toList, PromNum.fracDigits 10 (n.natAbs % 1024), natRepr_ne _, natRepr_digit _,
+      fracDigits_digit 10 _, ⟨fun h => absurd h hne, fun h => absurd h hz⟩, ?_⟩
+    simp only [PromNum.dyText, hz, if_false, hne]
+
+theorem digit_safe {c : Char} (h : c.isDigit = true) : c ≠ ' ' ∧ c ≠ '\n' ∧ c ≠ '\\' ∧ c ≠ '"' := by
+  refine ⟨?_, ?_, ?_, ?_⟩ <;> (intro e; subst e; revert h; decide)
+
+theorem dyText_safe (n : Int) : ∀ c ∈ PromNum.dyText n, c ≠ ' ' ∧ c ≠ '\n' ∧ c ≠ '\\' ∧ c ≠ '"' := by
+  obtain ⟨ip, fp, _, hip, hfp, _, e⟩ := dyText_shape n
+  intro c hc
+  rw [e] at hc
+  simp only [List.mem_append] at hc
+  rcases hc with (hc | hc) | hc
+  · split at hc
+    · simp only [List.mem_singleton] at hc; subst hc; decide
+    · cases hc
+  · exact digit_safe (hip c hc)
+  · split at hc
+    · cases hc
+    · rcases List.mem_cons.mp hc with rfl | h
+      · decide
+      · exact digit_safe (hfp c h)
+
+theorem dyText_ne (n : Int) : PromNum.dyText n ≠ [] := by
+  obtain ⟨ip, fp, hne, _, _, _, e⟩ := dyText_shape n
+  rw [e]
+  intro h
+  exact hne (List.append_eq_nil_iff.mp (List.append_eq_nil_iff.mp h).1).2
+
+/-- **the real `le` text is an accepted label value and a value token**, for every bound `n / 1024`: with the text
+    `Display` writes in place of the model's token, the `le` label of a `_bucket` line is `LabelOk` and the text is `IsToken`
+    (what `DataOk` asks of a histogram's buckets and of `_sum`) -/
+theorem le_text_ok (n : Int) :
+    LabelOk ("le".toList, PromNum.dyText n) ∧ WF false (PromNum.dyText n) ∧ IsToken (PromNum.dyText n) = true := by
+  have hs := dyText_safe n
+  have hwf : WF false (PromNum.dyText n) := wf_of_safe (fun c hc => ⟨(hs c hc).2.2.1, (hs c hc).2.1, (hs c hc).2.2.2⟩)
+  have hle : IsLabelName "le".toList = true := by decide
+  refine ⟨⟨hle, hwf⟩, hwf, ?_⟩
+  have hne := dyText_ne n
+  cases hv : PromNum.dyText n with
+  | nil => exact absurd hv hne
+  | cons a as =>
+    rw [hv] at hs
+    simp only [IsToken, List.isEmpty_cons, Bool.not_false, Bool.true_and, List.all_eq_true, Bool.and_eq_true,
+      bne_iff_ne, ne_eq]
+    intro c hc
+    exact ⟨(hs c hc).1, (hs c hc).2.1⟩
+
+/-- a histogram series whose bounds, counts and sum carry the REAL texts (`dyText` for f64, `natText` for u64) is `SeriesOk`:
+    `renderFamily_ok` applies to it as it does to the model's tokens -/
+theorem histSeries_realText_ok (labels : List (List Char)) (hl : LabelsOk labels) (bounds : List (Int × Nat))
+    (count : Nat) (sum : Int) :
+    SeriesOk ⟨labels, .hist (bounds.map (fun bc => (PromNum.dyText bc.1, Prom.natText bc.2))) (Prom.natText count)
+      (PromNum.dyText sum)⟩ := by
+  refine ⟨hl, ?_, natText_token count, (le_text_ok sum).2.2⟩
+  intro b hb
+  simp only [List.mem_map] at hb
+  obtain ⟨bc, _, rfl⟩ := hb
+  exact ⟨(le_text_ok bc.1).2.1, natText_token bc.2⟩
+
+example : PromNum.dyText 512 = "0.5".toList ∧ PromNum.dyText (-1) = "-0.0009765625".toList
+    ∧ PromNum.dyText 1024 = "1".toList ∧ PromNum.dyText 0 = "0".toList ∧ PromNum.dyText (-2560) = "-2.5".toList
+    ∧ PromNum.dyText 2147483647 = "2097151.9990234375".toList := by decide
 
 /-! ## 9. source facts: what a run on ASCII-only or ordinary inputs cannot tell apart -/
 
